@@ -22,6 +22,47 @@ CHECKS = {
                     "generated input broke losslessness, the DNS-safe alphabet or the length bound."),
         level_note="Trusts Go's bytes.Equal and the harness's own alphabet/length predicates; absence beyond the explored inputs is not shown.",
     ),
+    "C01": dict(
+        pkg="c01",
+        level="exploration",
+        technique="property-based testing (rapid) of end-to-end transfers through real client/server pairs, round-trip identity oracle",
+        rule=("case = (carrier x security configuration, listener kind, payload up/down with boundary-biased lengths "
+              "{0,1,2,4095..4097,16383..16385,32639..32641,32767..32769,65535..65537, uniform}, partition of each payload into "
+              "writes, content class incl. all byte values / zeros / 0xFF / handshake look-alikes, duplex or sequential, micro-gaps). "
+              "Oracle: bytes recorded by the target == bytes the application wrote and bytes the application read == bytes the "
+              "target wrote. non-trivial = total length > 4096 or >= 2 writes in a direction; distinct = distinct case tuple"),
+        assumptions=["client verification is switched off (insecure flag) in TLS configurations: authentication is C05's subject",
+                     "a transfer that does not complete within 30 s (90 s over DNS) is judged as lost data"],
+        quick=dict(run=".", checks=160, timeout=900),
+        thorough=dict(run=".", checks=500, timeout=3000, shards=8),
+        design_ref="DESIGN.md 2/C01",
+        level_text=("Generated (carrier, payload, segmentation) cases pushed through a freshly started real client/server pair and "
+                    "compared byte-for-byte at both observation points. A green run means no generated case lost, duplicated, "
+                    "reordered or altered a byte on any carrier kind."),
+        level_note="Trusts the harness target/app sockets; sampling only, no absence claim.",
+    ),
+    "C02": dict(
+        pkg="c02",
+        level="exploration",
+        technique="model-based stateful property testing (rapid state machine) of k concurrent logical connections on one real session; reference model = independent FIFO pipes with PRF payloads",
+        rule=("case = generated history on one fresh client/server pair with 2 channels/targets and up to 8 logical connections: "
+              "open(channel), write(conn, side, n), burst (2-6 writes started concurrently), pause/resume of a reader, close by "
+              "app or target; carriers tcp/stdio/http/udp (+tcp+tls, unix, https in thorough), StartTLS on a quarter. Payload bytes "
+              "are a PRF of (connection, direction, offset). Invariant after every step: bytes received on every open connection "
+              "are a prefix of what its own peer wrote (no cross-talk) and every non-paused reader has received everything "
+              "within 10 s (re-confirmed once) although other connections are idle, paused (<=256 KiB un-read) or closing; "
+              "new connections reach the right target. non-trivial = >=2 connections open simultaneously with data written on "
+              "one while another is open; distinct = distinct history"),
+        assumptions=["the Go scheduler is not controlled: interleavings come from generated order, concurrent bursts and (thorough) GOMAXPROCS 1/2/16",
+                     "a stall is judged after 2 x 10 s without progress"],
+        quick=dict(run=".", checks=60, steps=30, timeout=900),
+        thorough=dict(run=".", checks=400, steps=50, timeout=3000, shards=6, gomaxprocs_list=[1, 2, 16, 4, 16, 2]),
+        design_ref="DESIGN.md 2/C02",
+        level_text=("Stateful generated search against a reference model of independent pipes on a real session. A green run means no "
+                    "generated history showed bytes crossing between logical connections, a connection routed to the wrong target, "
+                    "or a connection that stopped making progress because of others."),
+        level_note="Schedules are sampled, not enumerated: a violation needing one specific preemption can be missed.",
+    ),
     "C19": dict(
         pkg="c19",
         level="exploration",
